@@ -44,7 +44,7 @@ import json
 import os
 import shutil
 
-from vlib import aslrun, build, drvrender, drvrun, drvtrace, tlc, tracecheck
+from vlib import aslrun, build, drvrender, drvrun, drvtrace, tlc
 from vlib.common import CheckError, Phase, log, pmap, rng
 from vlib.report import Report
 
@@ -264,7 +264,6 @@ def selftest(tier):
     """binding demonstration: (a) corrupted hook traces are rejected by Driver_Trace, (b) stored mutations of the
     anchored code (selftest/b218_mutants.py, applied to scratch copies of the repository) make this check report
     VIOLATION.  quick: 3 mutants, thorough: all of this property."""
-    import subprocess
     import sys
     bld = build.get("hook")
     ok = drvtrace.selftest_corruptions(bld, log)
